@@ -817,3 +817,119 @@ fn k_clear_clipped() {
     while i < 6 { assert!(dt.buf[i] == surf0[i], "no direct write bypasses the clip"); i += 1; }
     kani::cover!(true);
 }
+
+// ------------------------------------------------------------------ path -> edges (C01 #10, C08 #1, C10 #4, C11 #1)
+pub const EDGE_CAP: usize = 10;
+#[derive(Clone, Copy, PartialEq)]
+pub struct EdgeRec { pub sx: f32, pub sy: f32, pub ex: f32, pub ey: f32, pub curve: bool, pub cx: f32, pub cy: f32 }
+pub static mut EDGES: [EdgeRec; EDGE_CAP] = [EdgeRec { sx: 0., sy: 0., ex: 0., ey: 0., curve: false, cx: 0., cy: 0. }; EDGE_CAP];
+pub static mut EDGE_N: usize = 0;
+fn add_edge_rec(_r: &mut Rasterizer, start: Point, end: Point, curve: bool, control: Point) {
+    unsafe {
+        if EDGE_N < EDGE_CAP { EDGES[EDGE_N] = EdgeRec { sx: start.x, sy: start.y, ex: end.x, ey: end.y, curve, cx: control.x, cy: control.y }; }
+        EDGE_N += 1;
+    }
+}
+fn edges_reset() { unsafe { EDGE_N = 0; CURVE_CALLS = 0; } }
+pub static mut CURVE_CALLS: usize = 0;
+// line-only harnesses cut the curve arms off (their contracts are C08's): reaching them is recorded
+fn quad_to_rec<Backing: AsRef<[u32]> + AsMut<[u32]>>(_dt: &mut DrawTarget<Backing>, _cpt: Point, _pt: Point) { unsafe { CURVE_CALLS += 1; } }
+fn cubic_to_rec<Backing: AsRef<[u32]> + AsMut<[u32]>>(_dt: &mut DrawTarget<Backing>, _cpt1: Point, _cpt2: Point, _pt: Point) { unsafe { CURVE_CALLS += 1; } }
+fn edges_snapshot() -> ([EdgeRec; EDGE_CAP], usize) { unsafe { (EDGES, EDGE_N) } }
+
+fn small_pt() -> Point {
+    let x: i8 = kani::any();
+    let y: i8 = kani::any();
+    Point::new(x as f32 * 0.25, y as f32 * 0.25)
+}
+fn any_line_op() -> PathOp {
+    let k: u8 = kani::any();
+    kani::assume(k <= 2);
+    match k { 0 => PathOp::MoveTo(small_pt()), 1 => PathOp::LineTo(small_pt()), _ => PathOp::Close }
+}
+
+/// expected edge list of a line-only path: one edge per LineTo, a closing edge at Close, at a following MoveTo and at
+/// the end (implicit close); after Close the cursor is the subpath's first point.
+fn expect_edges(ops: &[PathOp], out: &mut [EdgeRec; EDGE_CAP]) -> usize {
+    let mut n = 0;
+    let mut cur: Option<Point> = None;
+    let mut first: Option<Point> = None;
+    let mut i = 0;
+    while i <= ops.len() {
+        let op = if i < ops.len() { ops[i] } else { PathOp::Close };
+        let is_move = matches!(op, PathOp::MoveTo(_));
+        if is_move || matches!(op, PathOp::Close) {
+            if let (Some(f), Some(c)) = (first, cur) {
+                if n < EDGE_CAP { out[n] = EdgeRec { sx: c.x, sy: c.y, ex: f.x, ey: f.y, curve: false, cx: 0., cy: 0. }; }
+                n += 1;
+            }
+            cur = first;
+        }
+        match op {
+            PathOp::MoveTo(p) => { cur = Some(p); first = Some(p); }
+            PathOp::LineTo(p) => {
+                if cur.is_none() { cur = Some(p); first = Some(p); }
+                let c = cur.unwrap();
+                if n < EDGE_CAP { out[n] = EdgeRec { sx: c.x, sy: c.y, ex: p.x, ey: p.y, curve: false, cx: 0., cy: 0. }; }
+                n += 1;
+                cur = Some(p);
+            }
+            _ => {}
+        }
+        i += 1;
+    }
+    n
+}
+
+// @ob id=K.apply_path_edges props=C01,C08,C10 kind=bounded:ops<=3 tier=quick timeout=900 fns=DrawTarget::apply_path,DrawTarget::move_to,DrawTarget::line_to,DrawTarget::close
+// @+ desc="apply_path on a fresh target, every sequence of 3 ops over {MoveTo, LineTo, Close} with symbolic quarter-grid points: the add_edge calls are exactly the polygon's edge list (one edge per LineTo, a closing edge at Close, at a following MoveTo and at the end; after Close the cursor is the subpath's first point); Rasterizer::add_edge replaced by a recorder"
+#[kani::proof]
+#[kani::unwind(10)]
+#[kani::stub(Rasterizer::add_edge, add_edge_rec)]
+#[kani::stub(DrawTarget::quad_to, quad_to_rec)]
+#[kani::stub(DrawTarget::cubic_to, cubic_to_rec)]
+fn k_apply_path_edges() {
+    let n: usize = 3;
+    let all = [any_line_op(), any_line_op(), any_line_op()];
+    let path = Path { ops: vec![all[0], all[1], all[2]], winding: Winding::NonZero };
+    let mut dt = DrawTarget::new(CW, CH);
+    edges_reset();
+    dt.apply_path(&path);
+    let (got, gn) = edges_snapshot();
+    let mut exp = got;
+    let en = expect_edges(&all[..n], &mut exp);
+    assert!(gn == en, "number of edges");
+    let mut i = 0;
+    while i < 5 { if i < en { assert!(got[i] == exp[i], "edge list equals the polygon's edges"); } i += 1; }
+    kani::cover!(en == 4);
+    kani::cover!(en == 0);
+}
+
+// @ob id=K.apply_path_no_residue props=C10 kind=bounded:ops<=3 tier=quick timeout=900 fns=DrawTarget::apply_path
+// @+ desc="no residue: for two targets that differ only in the path cursor left behind by an earlier path (any stale current/first point), the same path (3 ops over {MoveTo, LineTo, Close}, whatever op it starts with) produces the same add_edge sequence"
+#[kani::proof]
+#[kani::unwind(10)]
+#[kani::stub(Rasterizer::add_edge, add_edge_rec)]
+#[kani::stub(DrawTarget::quad_to, quad_to_rec)]
+#[kani::stub(DrawTarget::cubic_to, cubic_to_rec)]
+fn k_apply_path_no_residue() {
+    let n: usize = 3;
+    let all = [any_line_op(), any_line_op(), any_line_op()];
+    let path = Path { ops: vec![all[0], all[1], all[2]], winding: Winding::NonZero };
+    let mut fresh = DrawTarget::new(CW, CH);
+    edges_reset();
+    fresh.apply_path(&path);
+    let (e0, n0) = edges_snapshot();
+    // a target that has already drawn something: whatever apply_path leaves behind
+    let mut used = DrawTarget::new(CW, CH);
+    let earlier = Path { ops: vec![any_line_op(), any_line_op()], winding: Winding::NonZero };
+    used.apply_path(&earlier);
+    edges_reset();
+    used.apply_path(&path);
+    let (e1, n1) = edges_snapshot();
+    assert!(n0 == n1, "same number of edges whatever was drawn before");
+    let mut i = 0;
+    while i < 5 { if i < n0 { assert!(e0[i] == e1[i], "same edges whatever was drawn before"); } i += 1; }
+    kani::cover!(n0 == 3);
+}
+
